@@ -52,7 +52,9 @@ pub fn exec(toks: &[&str]) -> String {
     // parse
     let mut i = 1;
     let prior = toks[i]; i += 1;
-    let (pg, pk) = if prior == "valid" { let g: u64 = toks[i].parse().unwrap(); let k: u64 = toks[i + 1].parse().unwrap(); i += 2; (g, k) } else { (0, 0) };
+    // `valid <gen> <k>` (layout version 1) or `validv <version> <gen> <k>`
+    let pv: u64 = if prior == "validv" { let v = toks[i].parse().unwrap(); i += 1; v } else { 1 };
+    let (pg, pk) = if prior == "valid" || prior == "validv" { let g: u64 = toks[i].parse().unwrap(); let k: u64 = toks[i + 1].parse().unwrap(); i += 2; (g, k) } else { (0, 0) };
     let fatal: i64 = toks[i].parse().unwrap();
     let k1: u64 = toks[i + 1].parse().unwrap();
     let k2: u64 = toks[i + 2].parse().unwrap();
@@ -71,7 +73,7 @@ pub fn exec(toks: &[&str]) -> String {
         "empty" => std::fs::write(&path, b"").unwrap(),
         "garbage" => std::fs::write(&path, b"foobarbaz-not-a-segment-at-all-0123456789").unwrap(),
         "wiped" => std::fs::write(&path, header(0, 0, [0; 7])).unwrap(),
-        "valid" => std::fs::write(&path, header(1, pg as u16, rec_cells(pk))).unwrap(),
+        "valid" | "validv" => std::fs::write(&path, header(pv as u16, pg as u16, rec_cells(pk))).unwrap(),
         _ => return "bad-prior".into(),
     }
     let inode_before = std::fs::metadata(&path).map(|m| m.ino()).unwrap_or(0);
@@ -104,13 +106,15 @@ pub fn exec(toks: &[&str]) -> String {
     let att2 = if len2 >= 72 && len1 >= 72 { snap_text(&mut attached) } else if attached.is_some() { "sigbus-hazard".into() } else { "none".into() };
     drop(fresh); drop(attached);
     close_leaked(&path);
-    format!("ev {} ; crashed open:{} file:{} attached:{} ; restarted{} inode_same:{} len:{} fresh:{} attached:{}",
-        ev, open1, len1, att1, if r.is_err() { "-panic" } else { "" }, (inode_before != 0 && inode_before == inode_after) as u8, len2, fresh_t, att2)
+    // permission bits of the segment file: other users' clients must be able to read it
+    let mode = std::fs::metadata(&path).map(|m| m.mode() & 0o777).unwrap_or(0);
+    format!("ev {} ; crashed open:{} file:{} attached:{} ; restarted{} inode_same:{} len:{} fresh:{} attached:{} mode:{:o}",
+        ev, open1, len1, att1, if r.is_err() { "-panic" } else { "" }, (inode_before != 0 && inode_before == inode_after) as u8, len2, fresh_t, att2, mode)
 }
 
 pub fn grid() -> Vec<String> {
     let mut v = Vec::new();
-    let priors = ["missing", "empty", "garbage", "wiped", "valid 4 90", "valid 7 91", "valid 65534 92", "valid 65535 93", "valid 1 94"];
+    let priors = ["missing", "empty", "garbage", "wiped", "valid 4 90", "valid 7 91", "valid 65534 92", "valid 65535 93", "valid 1 94", "validv 3 6 95", "validv 65535 9 96"];
     for p in priors.iter() {
         for k in 0..24 { v.push(format!("crashpt {} {} 1 2", p, k)); }
     }
